@@ -142,6 +142,13 @@ def check_case(case):
             want = _np_elementwise(case["op"], a, b)
         elif form == "scalar-left":
             want = _np_elementwise(case["op"], b, a)
+        elif form in ("agg-right", "agg-left"):
+            flat = a.flatten()
+            agg = case["agg"]
+            sval = {"sum": np.sum(a), "prod": np.prod(a), "mean": np.mean(a), "median": np.median(a), "stddev": np.std(a),
+                    "size": float(len(a)), "rank": (sorted(flat.tolist(), reverse=True)[case.get("k", 1) - 1]
+                                                     if 1 <= case.get("k", 1) <= len(flat) else sorted(flat.tolist())[0])}[agg]
+            want = _np_elementwise(case["op"], a, sval) if form == "agg-right" else _np_elementwise(case["op"], sval, a)
         elif form == "dot":
             want = np.dot(a, b) if case.get("order", "AB") == "AB" else np.dot(b, a)
         elif form == "agg":
@@ -170,6 +177,13 @@ def check_case(case):
             eq = {"+": lambda: A + B, "-": lambda: A - B, "*": lambda: A * B, "/": lambda: A / B}[op]()
         elif form == "scalar-left":
             eq = {"+": lambda: B + A, "-": lambda: B - A, "*": lambda: B * A, "/": lambda: B / A}[op]()
+        elif form in ("agg-right", "agg-left"):
+            agg = case["agg"]
+            G = A.arr_rank(case.get("k", 1)) if agg == "rank" else getattr(A, "arr_" + agg)()
+            if form == "agg-right":
+                eq = {"+": lambda: A + G, "-": lambda: A - G, "*": lambda: A * G, "/": lambda: A / G}[op]()
+            else:
+                eq = {"+": lambda: G + A, "-": lambda: G - A, "*": lambda: G * A, "/": lambda: G / A}[op]()
         elif form == "dot":
             if case.get("order", "AB") == "AB":
                 eq = A.dot(B)
@@ -186,7 +200,7 @@ def check_case(case):
         info["outcome"] = "rejected:" + type(e).__name__
         return info, vs
     info["outcome"] = "accepted"
-    sig_form = form + (":" + case["op"] if op else "") + (":" + case["agg"] if form == "agg" else "") + \
+    sig_form = form + (":" + case["op"] if op else "") + (":" + case["agg"] if form in ("agg", "agg-right", "agg-left") else "") + \
         (":" + _dotkind(case) if form == "dot" else "")
     if mismatch:
         vs.append(Violation("mismatch-accepted:" + sig_form + ":" + case["mismatch"],
@@ -197,7 +211,7 @@ def check_case(case):
         vs.append(Violation("shape:" + sig_form, "result shape %r, numpy shape %r; A=%s B=%s got=%r want=%r"
                             % (got_arr.shape, want_arr.shape, _sh(case["A"]), _sh(case.get("B", {})), got, want_arr.tolist())))
         return info, vs
-    if not np.allclose(got_arr, want_arr, rtol=1e-9, atol=1e-12, equal_nan=False):
+    if not np.allclose(got_arr, want_arr, rtol=1e-9, atol=1e-12, equal_nan=True):  # 0/0 is nan on both sides
         vs.append(Violation("value:" + sig_form, "A=%r B=%r got %r numpy %r" % (avals, case.get("B"), got_arr.tolist(), want_arr.tolist())))
     return info, vs
 
@@ -235,8 +249,8 @@ def _body(ctx):
         if case.get("mismatch"):
             labels.append("mismatching-operands")
         if str(info["outcome"]).startswith("rejected") and not case.get("mismatch"):
-            labels.append("rejected-matching:" + case["form"] + ":" + str(case.get("op") or case.get("agg") or _dotkind(case)))
-        ctx.case({"form": case["form"], "op": case.get("op") or case.get("agg") or _dotkind(case), "A": _sh(case["A"]), "B": _sh(case.get("B", {})),
+            labels.append("rejected-matching:" + case["form"] + ":" + str(case.get("op") or case.get("agg") or _dotkind(case)) + (":" + case["agg"] if case.get("agg") and case.get("op") else ""))
+        ctx.case({"form": case["form"], "op": (case.get("op") or "") + (":" + case["agg"] if case.get("agg") else "") or _dotkind(case), "A": _sh(case["A"]), "B": _sh(case.get("B", {})),
                   "mismatch": case.get("mismatch"), "outcome": info["outcome"]},
                  nontrivial=_nontrivial(case, info), labels=labels, key=case)
         ctx.report(vs)
@@ -276,6 +290,15 @@ def combos(tier):
                     for sas in ("number", "element"):
                         out.append({"form": "scalar-right", "op": op, "A": dict(A), "B": {"scalar": 2.0, "as": sas}})
                         out.append({"form": "scalar-left", "op": op, "A": dict(A), "B": {"scalar": 3.0, "as": sas}})
+                # aggregates used as the scalar operand inside an element-wise arrayed equation: v - v.arr_median()
+                if (ka, kb) in kinds_pairs[:3]:
+                    for agg in AGGS:
+                        for op in OPS:
+                            for frm in ("agg-right", "agg-left"):
+                                c = {"form": frm, "op": op, "agg": agg, "A": dict(A)}
+                                if agg == "rank":
+                                    c["k"] = 2
+                                out.append(c)
                 # aggregates
                 if (ka, kb) in kinds_pairs[:4]:
                     size = sh[0] * (sh[1] if len(sh) == 2 else 1)
@@ -329,7 +352,7 @@ def random_strategy():
 
     @st.composite
     def build(draw):
-        form = draw(st.sampled_from(["elem", "scalar-right", "scalar-left", "dot", "agg"]))
+        form = draw(st.sampled_from(["elem", "scalar-right", "scalar-left", "dot", "agg", "agg-right", "agg-left"]))
         m, n = draw(st.integers(1, 4)), draw(st.integers(1, 4))
         vec = draw(st.booleans())
         sh = [draw(st.integers(1, 5))] if vec else [m, n]
@@ -361,7 +384,9 @@ def random_strategy():
             size = sh[0] * (sh[1] if len(sh) == 2 else 1)
             if case["agg"] == "rank":
                 case["k"] = draw(st.integers(-1, size + 1))
-            A["values"] = vals(sh)
+            if form in ("agg-right", "agg-left"):
+                case["op"] = draw(st.sampled_from(OPS))
+            A["values"] = vals(sh, form == "agg-left" and case.get("op") == "/")
         case["result_kind"] = draw(st.sampled_from(["converter", "converter", "biflow"]))
         return case
     return build()
